@@ -1108,3 +1108,15 @@ for _p in ("C12", "C03"):
     PROPS[_p]["verus_units"] = list(PROPS[_p].get("verus_units", [])) + ["flush_all"]
 PROPS["C12"]["claim"] = PROPS["C12"]["claim"] + " Unbounded (Verus, any number of value tables, queued tables and columns; evidence encoding): HashColumn::flush syncs the current index, every value table, the reference-count table and every index / reference-count table still queued for migration; DbInner::clean_all_logs flushes every column before it asks the log to reclaim a file."
 PROPS["C12"]["technique"] = PROPS["C12"]["technique"] + "; Verus contracts on HashColumn::flush (fragment) and DbInner::clean_all_logs"
+
+# ---------------------------------------------------------------- U77 (Verus fragment: Log::end_record publishes the record into the log overlay)
+UNIT_META["log_publish"] = {"functions": ["log::Log::end_record (fragment: from the point where the record has been appended to the log file to the end)"],
+                            "assumes": ["std HashMap by contract; `for (id, overlay) in m.into_iter()` becomes repeated removal of an arbitrary entry (take_any) and `a.extend(b.into_iter())` the contract extend_from (entries of b win) -- listed rewrites; loop invariants ride on the rewritten loop headers",
+                                        "different tables of one record have different positions in the overlay vectors and lie inside them (TableId::log_index: Kani U5; the vectors are sized by LogOverlays::with_columns)",
+                                        "a record touches fewer than 2^32 slots per table and fewer than 2^16 tables (the counters that feed the debug line stay inside usize)",
+                                        "the write guard of `self.overlays`, the open log file's size field and the `dirty` flag are parameters of the wrapper"]}
+PROPS["C01"]["verus_units"] = PROPS["C01"]["verus_units"] + ["log_publish"]
+PROPS["C01"]["claim"] = PROPS["C01"]["claim"] + " Publication into the log overlay (Verus, fragment of Log::end_record, unbounded over the tables and slots of a record): when end_record returns, every value entry, index chunk and reference-count chunk of the record is in the shared log overlay under its own table and slot (the record's entries replace older ones of the same slot), entries the record does not name stay as they were, and the last record id of every column the record writes values of is advanced -- so a key whose commit has just left the commit overlay (unit commit_apply: only after end_record returned Ok) is found in the log overlay."
+PROPS["C01"]["does_not_cover"] = [x for x in PROPS["C01"]["does_not_cover"] if "Log::end_record" not in x] + ["the first half of Log::end_record (choosing / creating the log file, LogChange::flush_to_file writing the record bytes: U51 bounded) and the reader side of LogWriter (closures)"]
+PROPS["C04"]["verus_units"] = list(PROPS["C04"].get("verus_units", [])) + ["log_publish"]
+PROPS["C04"]["claim"] = PROPS["C04"]["claim"] + " The record id iterators re-position on (LogOverlays::last_record_id of the column) is advanced by Log::end_record for every column a record writes values of (Verus, unit log_publish)."
